@@ -154,7 +154,7 @@ def oracle_sign_verify(ctx, rng, curve: bytes, secret: bytes, m, mbytes: bytes, 
         if not (ok and v is True):
             report(f'signature does not verify under {who}: {v!r}', {**base, 'repro': f'k={mk}; k.verify(k.sign({marg}, generic={generic}), {marg})'})
             return s
-    ok, v = lib.call(ck.check_signature_impl, k.public_key(), s, mbytes)
+    ok, v = (True, True) if (heavy and generic) else lib.call(ck.check_signature_impl, k.public_key(), s, mbytes)
     if not (ok and v is True):
         report(f'CHECK_SIGNATURE does not push True for a signature Key.verify accepts: {v!r}',
                {**base, 'key': k.public_key(), 'bytes': mbytes.hex(), 'repro': 'harness/c07_keys.py check_signature_impl(key, signature, bytes)'})
@@ -186,12 +186,113 @@ def oracle_sign_verify(ctx, rng, curve: bytes, secret: bytes, m, mbytes: bytes, 
         if ok:
             report(f'Key.verify accepts an altered {what}', rep)
             continue
+        if heavy:
+            continue            # quick on BLS: the instruction is exercised on the genuine signature and in the cross-curve matrix
         ok2, v2 = lib.call(ck.check_signature_impl, kk.public_key(), ss, mm)
         if ok2 and v2 is True:
             report(f'CHECK_SIGNATURE pushes True for an altered {what} that Key.verify rejects', rep)
         elif isinstance(v, ValueError) and not (ok2 and v2 is False):
             report(f'Key.verify raises ValueError for an altered {what} but CHECK_SIGNATURE does not push False: {v2!r}', rep)
     return s
+
+
+# ------------------------------------------------------------------------------------------------
+# cross-curve matrix and CHECK_SIGNATURE sequences
+# ------------------------------------------------------------------------------------------------
+
+SPELLINGS64 = [b'edsig', b'spsig', b'p2sig', b'sig']
+
+
+def independent_verdict(curve: bytes, pub: bytes, prefix: bytes, raw: bytes, msg: bytes):
+    """What an independent verifier says about (key of `curve`, signature text prefix+raw, msg): the prefix must be generic
+    (not for BLS) or the key's own, the length the curve's, and the reference implementation must accept the bytes."""
+    if prefix != curve + b'sig' and not (prefix == b'sig' and curve != b'BL'):
+        return False
+    if len(raw) != (96 if curve == b'BL' else 64):
+        return False
+    return ck.ref_verify(curve, pub, raw, msg)
+
+
+def cross_curve(ctx, cs: Cases, verifiers: dict, report):
+    """Every key curve x every signature form (each curve's prefix, generic, BLsig; genuine and mislabelled spellings of the
+    same bytes) made by ANOTHER key: Key.verify must raise ValueError (never return, never return a falsy value), CHECK_SIGNATURE
+    must push False; True is tolerated only if the independent verifier accepts (it never does for a foreign key)."""
+    from pytezos.crypto.encoding import base58_decode, base58_encode
+    from pytezos.crypto.key import Key
+    rng = ctx.rng
+    msg = rng.randbytes(12)
+    forms = []          # (signer curve, prefix, raw)
+    for sc in ck.CURVES:
+        signer = Key.from_secret_exponent(ck.rand_secret(rng, sc, boundary=False), sc)
+        raw = base58_decode(signer.sign(msg).encode())
+        if sc == b'BL':
+            forms.append((sc, b'BLsig', raw))
+        else:
+            forms += [(sc, p, raw) for p in SPELLINGS64]
+    for vc, vk in verifiers.items():
+        pub = vk.public_point
+        pk_txt = vk.public_key()
+        pubonly = Key.from_public_point(pub, vc)
+        for sc, prefix, raw in forms:
+            s = base58_encode(raw, prefix).decode()
+            heavy = vc == b'BL' and prefix == b'BLsig'
+            rp = {'key_curve': vc.decode(), 'public_point': pub.hex(), 'key': pk_txt, 'signature': s, 'signature_made_by': sc.decode() + ' key (another key)',
+                  'bytes': msg.hex(),
+                  'repro': f"Key.from_encoded_key('{pk_txt}').verify('{s}', bytes.fromhex('{msg.hex()}'))  # and CHECK_SIGNATURE on the same triple"}
+            ok, v = lib.call(pubonly.verify, s, msg)
+            ctx.dist[f'cross:{vc.decode()}-key:{prefix.decode()}-by-{sc.decode()}:{"returned " + repr(v) if ok else type(v).__name__}'] += 1
+            if ok:
+                report(f'Key.verify returned {v!r} instead of raising for a signature made by another key ({sc.decode()} key, {prefix.decode()} form, {vc.decode()} verifier)', rp)
+            ok2, v2 = lib.call(ck.check_signature_impl, pk_txt, s, msg)
+            if ok2 and v2 is True and independent_verdict(vc, pub, prefix, raw, msg) is not True:
+                report(f'CHECK_SIGNATURE pushes True for a signature made by another key ({sc.decode()} key, {prefix.decode()} form, {vc.decode()} verifier)', rp)
+            elif not ok and isinstance(v, ValueError) and not (ok2 and v2 is False):
+                report(f'Key.verify raises ValueError but CHECK_SIGNATURE does not push False: {v2!r}', rp)
+            # (A): always for the BLS verifier and for generic forms, a sample of the rest in the quick tier
+            if ctx.thorough or vc == b'BL' or prefix == b'sig' or rng.random() < 0.35:
+                if not heavy or ctx.thorough:
+                    impl_verify(cs, pub, None, vc, s, msg, f'cross-{prefix.decode()}')
+                    impl_checksig(cs, pk_txt, s, msg, f'cross-{prefix.decode()}')
+
+
+def checksig_sequences(ctx, cs: Cases, signers: dict, report):
+    """CHECK_SIGNATURE executed twice in one process on the same key, message and signature BYTES written with two different
+    base58 prefixes, in both orders (fresh message per ordered pair): each verdict must be the independent one — a verdict must
+    not depend on what was executed before."""
+    from pytezos.crypto.encoding import base58_decode, base58_encode
+    rng = ctx.rng
+    for curve, k in signers.items():
+        if curve == b'BL':
+            continue
+        pk_txt, pub = k.public_key(), k.public_point
+        pairs = [(a, b) for a in SPELLINGS64 for b in SPELLINGS64 if a != b]
+        if not ctx.thorough:
+            own = curve + b'sig'
+            pairs = [(a, b) for a, b in pairs if (a in (own, b'sig')) != (b in (own, b'sig'))]     # one accepted, one refused spelling
+        for first, second in pairs:
+            msg = b'seq ' + rng.randbytes(8)
+            raw = base58_decode(k.sign(msg).encode())
+            steps = []
+            for prefix in (first, second):
+                s = base58_encode(raw, prefix).decode()
+                want = independent_verdict(curve, pub, prefix, raw, msg)
+                ok, got = lib.call(ck.check_signature_impl, pk_txt, s, msg)
+                steps.append({'signature': s, 'pushed': got if ok else repr(got), 'independent_verdict': want})
+                ctx.case(('checksig-seq', pk_txt, s, msg, len(steps)), nontrivial=True, kind=f'checksig-sequence:{curve.decode()}:{first.decode()}>{second.decode()}:{got if ok else "fails"}')
+                if want is not None and not (ok and got is want):
+                    report(f'CHECK_SIGNATURE step {len(steps)} pushes {got!r} where an independent verification says {want} '
+                           f'(same signature bytes executed before as {first.decode()}…: the verdict depends on history)' if len(steps) == 2 else
+                           f'CHECK_SIGNATURE pushes {got!r} where an independent verification says {want}',
+                           {'key': pk_txt, 'bytes': msg.hex(), 'sequence': steps,
+                            'repro': 'in one process: ' + '; '.join(f"check_signature_impl('{pk_txt}', '{st['signature']}', bytes.fromhex('{msg.hex()}'))" for st in steps)
+                                     + '  # harness/c07_keys.py'})
+                    break
+            # the same two steps under the recorder for the stateless model (A)
+            if ctx.thorough or rng.random() < 0.4:
+                m2 = b'seq ' + rng.randbytes(8)
+                raw2 = base58_decode(k.sign(m2).encode())
+                for prefix in (first, second):
+                    impl_checksig(cs, pk_txt, base58_encode(raw2, prefix).decode(), m2, f'sequence-{prefix.decode()}')
 
 
 # ------------------------------------------------------------------------------------------------
@@ -246,7 +347,9 @@ def run(ctx: lib.Ctx) -> None:
                 'its public half, CHECK_SIGNATURE, then altered message/signature/key (one bit or one byte) and a different key; malformed stream: '
                 'no/empty secret, unknown curve tag, foreign-curve and generic prefixes, bad checksum, truncated text, signature as bytes; plus a '
                 'scrub_input stream over a whitespace/hex/non-ASCII alphabet. non-trivial = the native primitive was reached or the input is '
-                'longer than one character; distinct = distinct (operation, key, message, signature).')
+                'longer than one character; distinct = distinct (operation, key, message, signature). Cross-curve matrix: every key curve x every signature form '
+                '(each curve prefix, generic, BLsig; genuine and mislabelled spellings) made by another key; CHECK_SIGNATURE sequences: the same signature bytes '
+                'under two prefixes executed one after the other in both orders, each verdict compared with an independent verification.')
     ctx.assumptions.append(
         'native cryptography (pysodium/libsodium Ed25519, coincurve/libsecp256k1, fastecdsa P-256, py_ecc BLS, hashlib blake2b, base58) is trusted: '
         'the theorems assume of it exactly the laws `sig_laws` / `b58_laws` of Client/KeyGlue.v; in the correspondence run its recorded answers are the oracle table')
@@ -261,6 +364,7 @@ def run(ctx: lib.Ctx) -> None:
     table_job = pool.submit(compare_tables, ctx)      # one coqc run, overlapped with the generation below
     cs = Cases(ctx)
 
+    first_keys: dict = {}
     per_curve = {b'ed': ctx.n(3, 40), b'sp': ctx.n(3, 40), b'p2': ctx.n(3, 40), b'BL': ctx.n(1, 8)}
     for curve in ck.CURVES:
         for ki in range(per_curve[curve]):
@@ -270,6 +374,7 @@ def run(ctx: lib.Ctx) -> None:
                 report(f'key derivation failed for a valid {curve.decode()} secret: {k!r}', {'curve': curve.decode(), 'secret_exponent': secret.hex()})
                 continue
             pub, sec = k.public_point, k.secret_exponent
+            first_keys.setdefault(curve, k)
             pk_txt = k.public_key()
             for mi in range(ctx.n(1, 2) if curve == b'BL' else ctx.n(2, 3)):
                 m, mbytes = ck.rand_message(rng)
@@ -283,7 +388,7 @@ def run(ctx: lib.Ctx) -> None:
                         continue
                     heavy = curve == b'BL'
                     # (B)
-                    oracle_sign_verify(ctx, rng, curve, secret, m, mbytes, generic, n_alter=(1 if heavy else 3), report=report, heavy=heavy)
+                    oracle_sign_verify(ctx, rng, curve, secret, m, mbytes, generic, n_alter=(1 if heavy else 3), report=report, heavy=heavy and not ctx.thorough)
                     if not ok:
                         continue
                     # (A) verification of the genuine signature: secret key object, public half, CHECK_SIGNATURE
@@ -385,6 +490,8 @@ def run(ctx: lib.Ctx) -> None:
                     gen = k.sign(m, generic=True)
                     impl_verify(cs, pub, None, b'xx', gen, m, 'unknown-curve-generic')
 
+    cross_curve(ctx, cs, first_keys, report)
+    checksig_sequences(ctx, cs, first_keys, report)
     run_scrub(ctx, cs, ctx.n(80, 3000), report)
 
     # base58 glue directly: every (payload length, prefix) combination the key code can produce and some it cannot
@@ -412,7 +519,7 @@ def run(ctx: lib.Ctx) -> None:
 
     problems = table_job.result()
     pool.shutdown()
-    bad = ctx.coq_mismatches('keys', IMPORTS, 'run_case', 'outcome_eqb', 'otable * op', 'outcome', cs.cases, shard=100, prelude=PRELUDE)
+    bad = ctx.coq_mismatches('keys', IMPORTS, 'run_case', 'outcome_eqb', 'otable * op', 'outcome', cs.cases, shard=(250 if not ctx.thorough else 400), prelude=PRELUDE)
     ctx.extra['correspondence_cases'] = len(cs.cases)
     ctx.extra['correspondence_disagreements'] = len(bad)
 
